@@ -414,6 +414,47 @@ def run(ctx):
             r.ok("consumed", "never consumes past the last delivered line: max(context start, last_line_visited)", fn=f)
         else:
             r.bad("consumed", "roll's consumed amount no longer respects last_line_visited", fn=f, construct="consumed")
+    with ctx.rule("C03.COUNT", "incremental line counting: count [last_line_counted, upto) once, then advance the mark", floor=3, kind="GUARD/RW") as r:
+        f = facts.fn(CORE + "::count_lines")
+        eb = ExprBuilder(f)
+        cnt = f.calls_to("grep_searcher::lines::count")
+        ge = cond_switches(f, lambda e: e.k == "bin" and e[1] == "Ge" and mentions_field(e[2], CORE, "last_line_counted"), eb)
+        wm = [eb.rvalue(st["rv"]) for bb, j, st in f.stmts() if st["k"] == "assign" and (CORE, "last_line_counted") in fields_of_place(st["place"])]
+        if cnt and ge and not guarded(f, [cnt[0].bb], ge, False):
+            hay = eb.operand(cnt[0].args[0])
+            rng = [x for x in walk(hay) if x.k == "agg" and x[1].endswith("ops::range::Range")]
+            okr = rng and mentions_field(rng[0][3][0], CORE, "last_line_counted") and any(y.k == "arg" and y[2] == "upto" for y in walk(rng[0][3][1]))
+            if okr and mentions_field(eb.operand(cnt[0].args[1]), SCFG, "line_term"):
+                r.ok("range", "counts terminators in buf[last_line_counted..upto] (only when last_line_counted < upto)", fn=f)
+            else:
+                r.bad("range", "count_lines counts `%s`" % show(hay)[:70], fn=f, construct="count_lines")
+        else:
+            r.bad("range", "count_lines no longer counts exactly once per byte (guard last_line_counted >= upto)", fn=f, construct="count_lines")
+        if wm and all(x.k == "arg" and x[2] == "upto" for x in map(strip, wm)) and cnt and \
+                all(C.dominates(f, cnt[0].bb, bb) for bb, j, st in f.stmts() if st["k"] == "assign" and (CORE, "last_line_counted") in fields_of_place(st["place"])):
+            r.ok("mark", "last_line_counted = upto after counting", fn=f)
+        else:
+            r.bad("mark", "count_lines does not advance last_line_counted to upto after counting", fn=f, construct="count_lines")
+        # the count is added to the running line number
+        adds = [st for bb, j, st in f.stmts() if st["k"] == "assign" and st["rv"]["k"] in ("bin",) and st["rv"]["op"] in ("Add", "AddWithOverflow")
+                and mentions_call(eb.rvalue(st["rv"]), "grep_searcher::lines::count")]
+        if adds:
+            r.ok("add", "line_number += count", fn=f)
+        else:
+            r.bad("add", "the counted terminators are no longer added to the line number", fn=f, construct="count_lines")
+        g = facts.fn(CORE + "::before_context_by_line")
+        ebg = ExprBuilder(g)
+        pc = g.calls_to("grep_searcher::lines::preceding")
+        if pc:
+            e = ebg.operand(pc[0].args[2])
+            if any(x.k == "bin" and x[1] in ("Sub", "SubWithOverflow") and mentions_field(x, SCFG, "before_context") and
+                   any(y.k == "const" and y[1] == 1 for y in (x[2], x[3])) for x in walk(e)):
+                r.ok("before|count", "before-context window = preceding(.., before_context - 1) lines before the match's line start", fn=g)
+            else:
+                r.bad("before|count", "before_context_by_line asks for `%s` preceding lines instead of before_context - 1" % show(e)[:50], fn=g,
+                      construct="before-count")
+        else:
+            r.bad("before|count", "anchor-missing: lines::preceding in before_context_by_line", fn=g)
     with ctx.rule("C03.WINDOW", "before-context starts at the last visited line; after-context stops when none is owed", floor=2,
                   kind="FLOW/A3") as r:
         f = facts.fn(CORE + "::before_context_by_line")
